@@ -201,7 +201,9 @@ func knownLz4(prop string, spy *spyLz4) bool {
 	if !lz4OffsetWrap(spy.out[4:], spy.in) {
 		return false
 	}
-	stats.For(prop).Excluded(id)
+	if prop != "" {
+		stats.For(prop).Excluded(id)
+	}
 	return true
 }
 // lz4Diag describes, for a failure message, what the reference decoder makes of the compressed body of enc.
